@@ -200,6 +200,14 @@ func c03TreeKey(c *Ctx, p *Prog) {
 		})
 		return out
 	}
+	// stores to any key field of an existing TierInfo in fn
+	tierStoresAny := func(fn *ssa.Function) []*ssa.Store {
+		var out []*ssa.Store
+		for _, name := range keyFields {
+			out = append(out, tierStores(fn, tierField(name))...)
+		}
+		return out
+	}
 	callers := map[*ssa.Function][]ssa.CallInstruction{}
 	fns := c01SortedFuncs(p)
 	for _, f := range fns {
@@ -319,6 +327,61 @@ func c03TreeKey(c *Ctx, p *Prog) {
 			}
 		}
 		return
+	}
+
+	// paramIndexOf: v is (a copy of) exactly one parameter of fn; its index, else -1.
+	paramIndexOf := func(fn *ssa.Function, v ssa.Value) int {
+		os := origins(v, nil)
+		if len(os) != 1 {
+			return -1
+		}
+		for i, q := range fn.Params {
+			if os[0].V == ssa.Value(q) {
+				return i
+			}
+		}
+		return -1
+	}
+	// liftParam: every field of the item is read (in fn itself) from the object that
+	// is one and the same parameter of the named function fn, which has callers in
+	// felix/calc: the index of that parameter, else -1.
+	liftParam := func(fn *ssa.Function, flds map[string][]c03KeySrc) int {
+		if fn.Parent() != nil || len(callers[fn]) == 0 {
+			return -1
+		}
+		idx := -1
+		for _, srcs := range flds {
+			for _, s := range srcs {
+				_, base, _ := c03FieldBase(s.V)
+				if s.Via != nil || base == nil {
+					return -1
+				}
+				i := paramIndexOf(fn, base)
+				if i < 0 || (idx >= 0 && i != idx) {
+					return -1
+				}
+				idx = i
+			}
+		}
+		return idx
+	}
+	// liftSites: the call sites at which the object handed to parameter idx of fn is
+	// chosen (through at most two more helpers that merely pass their own parameter on).
+	var liftSites func(fn *ssa.Function, idx, depth int) []ssa.CallInstruction
+	liftSites = func(fn *ssa.Function, idx, depth int) []ssa.CallInstruction {
+		var out []ssa.CallInstruction
+		for _, ci := range callers[fn] {
+			if idx >= len(ci.Common().Args) {
+				continue
+			}
+			g := ci.Parent()
+			if j := paramIndexOf(g, ci.Common().Args[idx]); j >= 0 && depth < 2 && g.Parent() == nil && len(callers[g]) > 0 && len(tierStoresAny(g)) == 0 {
+				out = append(out, liftSites(g, j, depth+1)...)
+				continue
+			}
+			out = append(out, ci)
+		}
+		return out
 	}
 
 	n := 0
@@ -485,6 +548,27 @@ func c03TreeKey(c *Ctx, p *Prog) {
 					}
 				}
 				what := map[bool]string{true: "before any of them is reassigned", false: "after their last reassignment"}[isDelete]
+				// The tree operation sits in a helper that is handed the TierInfo: "before any
+				// field is reassigned" / "after the last reassignment" is then a property of
+				// each call site (one instance per site, judged in the caller).
+				if idx := liftParam(fn, flds); idx >= 0 && len(bad) == 0 {
+					for _, ls := range liftSites(fn, idx, 0) {
+						n++
+						g := ls.Parent()
+						lkey := "C03.treekey/" + op + "/tierInfoKey@" + fnName(g)
+						var lbad []string
+						for _, name := range keyFields {
+							for _, st := range tierStores(g, tierField(name)) {
+								if isDelete && instrReaches(st, ls) {
+									lbad = append(lbad, fmt.Sprintf("%s rebuilds tierInfoKey.%s from the TierInfo after TierInfo.%s was reassigned at %s (the tree still holds the old value)", fnName(fn), name, name, p.Pos(st.Pos())))
+								}
+							}
+						}
+						c.Check(len(lbad) == 0, lkey, p.Pos(ls.Pos()),
+							fmt.Sprintf("the TierInfo is handed to %s (which builds the tierInfoKey from it and calls %s) %s", fnName(fn), cs.Callee.Name(), what),
+							fmt.Sprintf("%s hands btree %s (in %s) a tierInfoKey that does not mirror the TierInfo as the tree knows it: %s — TierLess orders by Valid/Order/Name, so the entry is looked up at the wrong position and a stale duplicate of the tier stays in the sorted tree", fnName(g), cs.Callee.Name(), fnName(fn), strings.Join(c03Uniq(lbad), "; ")))
+					}
+				}
 				c.Check(len(bad) == 0, key, site,
 					"every field of the tierInfoKey is read from the same-named field of one TierInfo, "+what,
 					fmt.Sprintf("%s hands btree %s a tierInfoKey that does not mirror the TierInfo as the tree knows it: %s — TierLess orders by Valid/Order/Name, so the entry is looked up (or filed) at the wrong position and a stale duplicate of the tier stays in the sorted tree", fnName(fn), cs.Callee.Name(), strings.Join(c03Uniq(bad), "; ")))
